@@ -49,6 +49,15 @@ CLAIMED = {
        'absent, Received first. Proved by an invariant over the recursion (unbounded chains and lists). Tied to the code by an exhaustive campaign '
        'over all chains <= 3 (quick) / 4 (thorough) x recipient lists against the real policies, with aliasing probed on the real objects.',
   ref='6/C16', technique='Lean 4 proof (invariant over the policy recursion, counting argument) + differential correspondence vs real Queue._run_policies'),
+ 'C15': dict(
+  text='Lean theorems over Model/Store.lean: the accumulating representation of disk/redis/cloud (indexes appended per round, replayed in order) '
+       'refines the reference store (in-place deletion, = DictStorage) for EVERY operation sequence, any number of marking rounds; ids are fresh; '
+       'an operation on one id leaves every other record untouched; a removed id stays absent under all later operations (dict, disk, cloud); '
+       'the redis representation is modelled faithfully, including the known finding (update after remove recreates the hash), proved on a witness. '
+       'Tied to the code by op-sequence campaigns on the four real backends (real pyaio files, real redis-py against an in-process RESP server, '
+       'CloudStorage over a fake object store), sequential and with overlapped operations on different ids.',
+  ref='6/C15', technique='Lean 4 proof (simulation/refinement between store representations) + differential correspondence vs the four real backends',
+  note='The redis server and the cloud object store are stand-ins written from the client library / aws.py source.'),
 }
 def main():
     props = [json.loads(l) for l in open(os.path.join(V, 'properties.jsonl'))]
